@@ -100,7 +100,7 @@ static int h_posix_memalign(void **out, size_t align, size_t size) {
         fprintf(stderr, "sbaseq: page request of %zu bytes cannot be served by the pool\n", size);
         _exit(2);
     }
-    int idx;
+    int idx, recycled = hp_nstack > 0;
     if (hp_nstack)
         idx = hp_stack[--hp_nstack]; /* LIFO: the page just freed is the next one handed out */
     else {
@@ -117,7 +117,7 @@ static int h_posix_memalign(void **out, size_t align, size_t size) {
     ++hp_live;
     if (g_new_op) {
         V_COUNT("pages_allocated", 1);
-        if (hp_nstack || idx + 1 < hp_next) V_COUNT("pages_allocated_at_recycled_address", 1);
+        if (recycled) V_COUNT("pages_allocated_at_recycled_address", 1);
     }
     V_MAXSTAT("max_live_pages", (uint64_t)hp_live);
     *out = p;
@@ -168,6 +168,7 @@ struct profile {
     int page_sizes;       /* bit 0: run in the default-page build, bit 1: run in the 2048 build */
     int with_calloc;      /* calloc(n,size) symbols in the alphabet (same successor states as acquire) */
     int depth_dbg;        /* depth in the DEBUG_BUILD harness (library assertions live), 0 = not run there */
+    int addr_canon;       /* 1: canon keeps real pool addresses and the pool's LIFO stack (see m_canon) */
 };
 static const struct profile *g_p;
 static char g_name[80];
@@ -537,6 +538,7 @@ static int ord_next;
 static uint8_t page_ord(const void *addr) {
     int idx = hp_index(addr);
     if (idx < 0) return 0xfd;
+    if (g_p->addr_canon) return (uint8_t)idx;
     if (ord_of[idx] == 0xff) ord_of[idx] = (uint8_t)ord_next++;
     return ord_of[idx];
 }
@@ -589,6 +591,16 @@ static size_t m_canon(uint8_t *b, size_t cap) {
     b[o++] = (uint8_t)n;
     memcpy(b + o, keys, (size_t)n * 8);
     o += (size_t)n * 8;
+    if (g_p->addr_canon) {
+        /* Address-sensitive variant: the renaming above makes a state whose pages sit at recycled addresses equal
+         * to the same state on fresh addresses, and BFS then always keeps the (shorter) fresh representative, so
+         * "a page is handed out at the address of a page that went back" is never a NEW transition.  This variant
+         * keeps real pool indices and the pool's LIFO stack in the canon so that exactly those transitions are
+         * explored too (smaller bound; it is a refinement, hence trivially sound). */
+        b[o++] = (uint8_t)hp_next;
+        b[o++] = (uint8_t)hp_nstack;
+        for (int i = 0; i < hp_nstack; ++i) b[o++] = (uint8_t)hp_stack[i];
+    }
     return o;
 }
 
@@ -617,11 +629,12 @@ static struct esx_model model = {
 static const struct profile profiles[] = {
     /* name   ns sizes            mt gm  dq  dt pages calloc dbg */
     {"full", 10, ALL10,            0, 0,  5,  6, 1, 1, 0}, /* default page: every size, every realloc pair */
-    {"full", 10, ALL10,            0, 0,  5,  7, 2, 1, 4}, /* 2048-byte page */
+    {"full", 10, ALL10,            0, 0,  5,  6, 2, 1, 4}, /* 2048-byte page (depth 7 = 2.6e6 states was run once, clean: too slow for the tier) */
     {"full", 10, ALL10,            1, 1,  4,  5, 1, 1, 0}, /* multi_threaded=true: per-bin mutexes taken on one thread */
     {"big",   3, {257, 512, 513},  0, 2,  8,  9, 1, 1, 0}, /* bin 512 + parent: 7 blocks per 4096 page */
-    {"big",   3, {257, 512, 513},  0, 2,  9,  9, 2, 1, 8}, /* 3 blocks per 2048 page: turn-over, purge, page reuse within 9 ops */
+    {"big",   3, {257, 512, 513},  0, 2,  9, 10, 2, 1, 8}, /* 3 blocks per 2048 page: turn-over, purge, page reuse within 9 ops */
     {"big",   3, {257, 512, 513},  1, 1,  7,  9, 2, 1, 6},
+    {"bigaddr", 2, {512, 513},     0, 2, 10, 12, 2, 0, 0, 1}, /* same, address-sensitive canon: recycled page addresses */
     {"d512",  1, {512},            0, 0, 10, 14, 1, 0, 0}, /* 7 blocks per page: exhaustion at 7, page freed at 14 */
     {"d256",  1, {256},            0, 0, 10, 14, 2, 0, 0},
 };
